@@ -477,6 +477,36 @@ class NP:
             return x
         return x.sum(axis=axis, keepdims=keepdims)
 
+    def prod(self, x, axis=None, keepdims=False, **kw):
+        """product along an axis, for positive factors: exp(Σ log x).  Float model (DESIGN §2.4): a product over an
+        axis of symbolic length leaves the float64 range for ordinary inputs (64 variances of 1e-6 -> 0) although the
+        mathematical value is finite -- a 'floatrange' hazard is emitted"""
+        used("np.prod")
+        x = lift(x)
+        if not isinstance(x, Arr):
+            return x
+        if keepdims:
+            raise ModelError("np.prod keepdims")
+        ax = axis
+        if isinstance(ax, Poly):
+            ax = ax.as_int()
+        if ax is None:
+            if x.ndim != 1:
+                raise ModelError("np.prod over all axes")
+            ax = 0
+        ax = ax % x.ndim
+        if P(x.shape[ax]).as_int() is None:
+            T.side("floatrange", "prod", "product over an axis of symbolic length")
+        xf = x.fn
+
+        def lg(*idx):
+            v = P(xf(*idx))
+            T.side("pos", v, "factor of a product (modelled as exp of a sum of logs)")
+            return T.mk_log(v)
+        logs = Arr(x.shape, lg, "real", x.kind)
+        s = logs.sum(axis=ax)
+        return ewise(lambda a: T.mk_exp(P(a)), s) if isinstance(s, Arr) else T.mk_exp(P(s))
+
     def mean(self, x, axis=None, keepdims=False, **kw):
         used("np.mean")
         x = lift(x)
